@@ -13,10 +13,10 @@ TRUST = ("CPython 3.12 / numpy / scipy / pandas / dill as installed; the referen
 
 P = {
     'C01': dict(shape='S1+S2', ref='4/C01',
-                technique='explicit-state bounded exhaustive exploration of the real aligner (all label subsets x seed-peak lists x strands on a lattice) and of Program.run over all worlds with <=2 edits x 4 modes; oracle = matching validity recomputed from labels',
+                technique='explicit-state bounded exhaustive exploration of the real aligner (all label subsets x seed-peak lists x strands on a lattice) and of Program.run over all worlds with <=2 edits x 4 modes; oracle = matching validity recomputed from labels; plus the join step alone (align / getUnalignedFragments / align / AlignmentResults.resolve on two-part lattice molecules), runs with -ms 3000 and with diagnostic plots',
                 text='every Aligner.align result over a complete lattice of label geometries and seed-peak lists, and every record of every file of every world with a bounded number of edits, is checked to be a one-to-one collinear matching of existing labels'),
-    'C02': dict(shape='S2', ref='4/C02',
-                technique='deviation-bounded exhaustive exploration of Program.run over a world grammar (windows x strands x offsets x edit scripts x modes); oracle = header fields recomputed from CMAP text by an independent parser',
+    'C02': dict(shape='S1+S2', ref='4/C02',
+                technique='deviation-bounded exhaustive exploration of Program.run over a world grammar (windows x strands x offsets x edit scripts x modes); oracle = header fields recomputed from CMAP text by an independent parser; plus rows of the real aligner for whole molecules and the four kinds of second-pass fragment maps written by the real writer (S1)',
                 text='every record of every output file of every enumerated world has its header fields recomputed from the input CMAP text and compared'),
     'C03': dict(shape='S1+S2', ref='4/C03',
                 technique='exhaustive enumeration of all valid matchings on label grids (both strands, all segment splits) through AlignmentResultRow.cigarString, plus every end-to-end record; oracle = replay decoder',
@@ -25,19 +25,19 @@ P = {
                 technique='bounded exhaustive exploration of Aligner.align over jittered lattices x scoring parameter grid and of Program.run over worlds x CLI score parameters; oracle = score recomputed from raw maps, peak and parameters',
                 text='confidence and segment scores of every explored candidate are recomputed from raw coordinates and parameters'),
     'C05': dict(shape='S2', ref='4/C05',
-                technique='exhaustive exploration of Program.run over multi-query worlds x peaksCount x modes with dispatcher observation; oracle = argmax over observed candidates, multiplicity and order',
+                technique='exhaustive exploration of Program.run over multi-query worlds x peaksCount x modes with dispatcher observation; oracle = argmax over observed candidates, multiplicity and order; tight-reference worlds; each command repeated into the same output path',
                 text='for every enumerated multi-query world the records are compared with the candidates observed through the extension dispatcher'),
     'C06': dict(shape='S2', ref='4/C06',
-                technique='exhaustive enumeration of every interior window (15-45 labels) of catalogue references x strands x offsets x trailing x modes through Program.run; oracle = planted truth',
+                technique='exhaustive enumeration of every interior window (15-45 labels) of catalogue references x strands x offsets x trailing x modes through Program.run; oracle = planted truth; output paths without / with another extension; coordinate offsets beyond the reference length',
                 text='every window of every catalogue reference is planted and must be recovered exactly'),
     'C07': dict(shape='S2', ref='4/C07',
-                technique='exhaustive exploration of a degenerate-world catalogue x parameter deviations (<=2) x modes through Program.run and the coma CLI; oracle = no abort, well-formed files, read-back, non-interference',
+                technique='exhaustive exploration of a degenerate-world catalogue x parameter deviations (<=2) x modes through Program.run and the coma CLI; oracle = no abort, well-formed files, read-back, non-interference; two real CLI runs per world in rotating shell shapes (output path spellings, CMAP through a pipe, XMAP on standard output)',
                 text='every degenerate world under every bounded parameter deviation must terminate normally and produce readable files'),
     'C08': dict(shape='S2', ref='4/C08',
-                technique='exhaustive exploration of join-provoking worlds x maxDifference x 4 modes on identical inputs; oracle = cross-file equalities and join justification',
+                technique='exhaustive exploration of join-provoking worlds x maxDifference x 4 modes on identical inputs; oracle = cross-file equalities and join justification; plus the join step alone on two-part lattice molecules (S1)',
                 text='the four output modes are run on each enumerated world and compared record by record'),
     'C09': dict(shape='S3', ref='4/C09',
-                technique='schedule enumeration: controlled process pool substituted at the p_tqdm Pool seam, all task-to-worker assignments (set partitions) for both pool phases, perturbed in-block orders, completion orders, hash seeds; oracle = byte equality of files; bound to the real pool by a conformance probe and real coma -c k runs',
+                technique='schedule enumeration: controlled process pool substituted at the p_tqdm Pool seam, all task-to-worker assignments (set partitions) for both pool phases, perturbed in-block orders, completion orders, hash seeds; oracle = byte equality of files; bound to the real pool by a conformance probe and real coma -c k runs; twin-reference worlds (exact seed ties), a 20-molecule world, repetition into the same path, XMAP on standard output, real CLI with -c 1..16',
                 text='every schedule up to the worker/task bound is executed with real forked workers and the output bytes compared'),
     'C10': dict(shape='S1+S2', ref='4/C10',
                 technique='exhaustive enumeration of query subsets/orderings, reference orders, id filters and CMAP row permutations through CmapReader and Program.run; oracle = per-query record equality with the full run',
@@ -49,28 +49,28 @@ P = {
                 technique='exhaustive enumeration of all label multisets on a unit lattice x seed offsets x strands x shifts x maxDistance through AlignerEngine.align; oracle = partition/order/distance/nearest-partner invariants',
                 text='every label geometry below the lattice bound is fed to the real pairing engine'),
     'C13': dict(shape='S1', ref='4/C13',
-                technique='exhaustive enumeration of all score sequences up to length 8 over an 8-symbol alphabet x 16 threshold pairs through AlignmentSegmentsFactory.getSegments; oracle = reference scanner + declarative clauses',
+                technique='exhaustive enumeration of all score sequences up to length 8 over an 8-symbol alphabet x 16 threshold pairs through AlignmentSegmentsFactory.getSegments; oracle = reference scanner + declarative clauses; dyadic alphabet; two-call sequences on one factory',
                 text='every score sequence below the length bound is cut by the real factory and compared with a reference scanner written from the statement'),
     'C14': dict(shape='S1', ref='4/C14',
-                technique='exhaustive enumeration of all subsets (<=7) of a pool of lattice segments x strands x scorer variants through SegmentChainer.chain; oracle = brute force over all order-respecting subsets',
+                technique='exhaustive enumeration of all subsets (<=7) of a pool of lattice segments x strands x scorer variants through SegmentChainer.chain; oracle = brute force over all order-respecting subsets; two-call sequences on one chainer',
                 text='every subset of the segment pool is chained by the real chainer and compared with brute-force optimum'),
     'C15': dict(shape='S1', ref='4/C15',
-                technique='exhaustive enumeration of peak ladders on lattice worlds through the real engine+scorer+factory+resolver; oracle = sub-run/disjointness/retention invariants on every final state and every pair step',
+                technique='exhaustive enumeration of peak ladders on lattice worlds through the real engine+scorer+factory+resolver; oracle = sub-run/disjointness/retention invariants on every final state and every pair step; scorer configurations with join multiplier 0 / 0.5 and unmatched penalty 0; collision, duplication and base-pair-scale worlds',
                 text='every ladder of nearby seed peaks on each lattice world produces real segment lists that are resolved and checked'),
-    'C16': dict(shape='S1', ref='4/C16',
-                technique='exhaustive enumeration of label multisets x resolutions x windows, bit vectors x radii, bins x resolutions, peak-height lists x counts; oracle = bin membership, dilation, centre, top-N',
+    'C16': dict(shape='S1+S2', ref='4/C16',
+                technique='exhaustive enumeration of label multisets x resolutions x windows, bit vectors x radii, bins x resolutions, peak-height lists x counts; oracle = bin membership, dilation, centre, top-N; two-call sequences on one SequenceGenerator; Program.run over multi-reference, tight-reference and tandem-array worlds x peaksCount with dispatcher observation (refined seeds = best-scoring peaks, refined peak at the planted offset)',
                 text='every small input of the vectorisation, blur, conversion and peak selection functions is compared with a direct definition'),
     'C17': dict(shape='S1', ref='4/C17',
-                technique='exhaustive enumeration of molecule sets x all row permutations x all id filters through CmapReader, all label lists through OpticalMap.trim; oracle = independent text parse',
+                technique='exhaustive enumeration of molecule sets x all row permutations x all id filters through CmapReader, all label lists through OpticalMap.trim; oracle = independent text parse; four file layouts; two-call sequences of one reader over named files',
                 text='every row permutation and id filter of small CMAP files is read by the real reader and compared with an independent parse'),
     'C18': dict(shape='S1+S2', ref='4/C18',
-                technique='exhaustive enumeration of synthetic result sets (0-3 records x strands x passes) through XmapReader.writeAlignments/readAlignments plus every file of the end-to-end worlds; oracle = field-by-field equality',
+                technique='exhaustive enumeration of synthetic result sets (0-3 records x strands x passes) through XmapReader.writeAlignments/readAlignments plus every file of the end-to-end worlds; oracle = field-by-field equality; the reader object held by the Program itself; rewrite-and-reread sequences on one path; XMAP on standard output',
                 text='every enumerated result set is written and read back with both pair parsers'),
     'C19': dict(shape='S1', ref='4/C19',
                 technique='exhaustive enumeration of all pairs of alignment sets over 3 keys x a pair-list catalogue x both flags through AlignmentComparer.compare; oracle = counting identities, bounds, reflexivity, swap',
                 text='every pair of alignment sets below the bound is compared by the real comparer'),
     'C20': dict(shape='S1', ref='4/C20',
-                technique='exhaustive enumeration of all sorted call lists (<=5) over a blur-boundary lattice through cluster_indels/write_indel_file and of small alignments x breakpoints through both indel finders; oracle = conservation, purity, cover, self-consistency',
+                technique='exhaustive enumeration of all sorted call lists (<=5) over a blur-boundary lattice through cluster_indels/write_indel_file and of small alignments x breakpoints through both indel finders; oracle = conservation, purity, cover, self-consistency; molecule_indels.run end to end on generated files (query ids that are reference ids too); runs with several alignments and join points',
                 text='every sorted call list below the bound is clustered by the real code and conservation is checked'),
 }
 
